@@ -62,19 +62,36 @@ for lint, doc in (("BrokenDocLink", "/// see {{@link Nope}}"), ("IncorrectDocCom
     key = lint[:6].lower()
     t("%s/operation" % key, lint, "{file}module M\n{encl}interface I {{\n" + doc + "\n{elem}op(a: bool) {sib}other() }}\n", ["elem", "encl"], ["sib"])
 
+# every report site of the operation-level lints
+OPT = "{file}module M\n{encl}interface I {{\n%s\n{elem}%s {sib}other() }}\n"
+t("incorr/op-unknown-param", "IncorrectDocComment", OPT % ("/// @param nope: x", "op(a: bool)"), ["elem", "encl"], ["sib"])
+t("incorr/op-returns-on-void", "IncorrectDocComment", OPT % ("/// @returns: x", "op(a: bool)"), ["elem", "encl"], ["sib"])
+t("incorr/op-named-returns-on-single", "IncorrectDocComment", OPT % ("/// @returns r: x", "op(a: bool) -> bool"), ["elem", "encl"], ["sib"])
+t("incorr/op-unknown-return-member", "IncorrectDocComment", OPT % ("/// @returns nope: x", "op() -> (a: bool, b: bool)"), ["elem", "encl"], ["sib"])
+t("broken/op-link-in-param", "BrokenDocLink", OPT % ("/// @param a: see {{@link Nope}}", "op(a: bool)"), ["elem", "encl"], ["sib"])
+t("broken/op-link-in-returns", "BrokenDocLink", OPT % ("/// @returns: see {{@link Nope}}", "op() -> bool"), ["elem", "encl"], ["sib"])
+t("broken/op-see", "BrokenDocLink", OPT % ("/// @see Nope", "op()"), ["elem", "encl"], ["sib"])
+t("broken/op-link-to-parameter", "BrokenDocLink", OPT % ("/// {{@link op::a}}", "op(a: bool)"), ["elem", "encl"], ["sib"])
+t("malfor/op-inline-param", "MalformedDocComment", OPT % ("/// x {{@param a}}", "op(a: bool)"), ["elem", "encl"], ["sib"])
+t("incorr/struct-param", "IncorrectDocComment", "{file}module M\n/// @param x: y\n{elem}struct S {{ {sib}a: bool }}\n", ["elem"], ["sib"])
+t("incorr/field-returns", "IncorrectDocComment", "{file}module M\n{encl}struct S {{\n/// @returns: y\n{elem}a: bool, {sib}b: bool }}\n", ["elem", "encl"], ["sib"])
+t("broken/enumerator-field", "BrokenDocLink", "{file}module M\n{encl2}enum E {{ {encl}X(\n/// {{@link Nope}}\n{elem}a: bool, {sib}b: bool) }}\n", ["elem", "encl", "encl2"], ["sib"])
+
 ARGS = ["{lint}", "All", "{other_lint}", "{other_lint}, {lint}", "{lint}, {other_lint}"]
 ALL_LINTS = ["Deprecated", "BrokenDocLink", "IncorrectDocComment", "MalformedDocComment"]
 
 
-def fill(template, slot, arg):
-    """Returns the list of file texts with `slot` holding allow(arg) (slot None = no suppression)."""
+def fill(template, slot, arg, more=()):
+    """Returns the list of file texts with `slot` holding allow(arg) (slot None = no suppression); `more` = further (slot, arg)
+    pairs; a slot used twice gets two attributes."""
     values = {}
     for s in ["file", "other", "elem", "encl", "encl2", "sib", "sib2", "depdef"]:
         values[s] = ""
-    if slot in ("file", "other"):
-        values[slot] = "[[allow(%s)]]\n" % arg
-    elif slot is not None:
-        values[slot] = "[allow(%s)] " % arg
+    for sl, a in ([(slot, arg)] if slot is not None else []) + list(more):
+        if sl in ("file", "other"):
+            values[sl] += "[[allow(%s)]]\n" % a
+        else:
+            values[sl] += "[allow(%s)] " % a
     return [template["text"].format(**values)] + [x.format(**values) for x in template["extra"]]
 
 
@@ -109,6 +126,18 @@ def run_templates(ctx, spec):
                 names_lint = tpl["lint"] in [x.strip() for x in arg.split(",")] or "All" in arg
                 in_scope = slot == "file" or slot in tpl["in"]
                 cases.append((tpl, "attr:" + slot, fill(tpl, slot, arg), [], names_lint and in_scope, arg))
+        # two suppressions visible from the lint: the one that names it is not the first one met on the way outwards / in source
+        chain = tpl["in"] + ["file"]
+        other = [l for l in ALL_LINTS if l != tpl["lint"]][ti % 3]
+        for i, near in enumerate(chain):
+            for far in chain[i:]:
+                for first_names_it in (False, True):
+                    a_near, a_far = (tpl["lint"], other) if first_names_it else (other, tpl["lint"])
+                    texts = fill(tpl, near, a_near, more=[(far, a_far)])
+                    cases.append((tpl, "attr2:%s+%s" % (near, far), texts, [], True, "%s then %s" % (a_near, a_far)))
+        for near in chain:
+            cases.append((tpl, "attr2:%s+cmdline-other" % near, fill(tpl, near, tpl["lint"]), [other], True, tpl["lint"] + " / -A " + other))
+            cases.append((tpl, "attr2:%s-other+cmdline" % near, fill(tpl, near, other), [tpl["lint"]], True, other + " / -A " + tpl["lint"]))
         # command line placements
         for a in ["{lint}", "All", "{other_lint}", "{lint_lower}", "{lint_upper}", "all", "ALL"]:
             other = [l for l in ALL_LINTS if l != tpl["lint"]][ti % 3]
@@ -294,12 +323,54 @@ def run_request(ctx, spec):
             ctx.violate("suppression-changes-request", "-A All changes the generator request", {"kind": "binary", "template": tpl["name"]})
 
 
+def run_dupfile(ctx, spec):
+    """DuplicateFile has no location: only the command line can silence it."""
+    tmp = os.path.join(ctx.tmpdir(), "dup")
+    os.makedirs(tmp, exist_ok=True)
+    with open(os.path.join(tmp, "a.slice"), "w") as f:
+        f.write("module M\n[deprecated] struct D {}\nstruct S { d: D }\n")
+    with open(os.path.join(tmp, "b.slice"), "w") as f:
+        f.write("module N\nstruct T {}\n")
+    lists = [["a.slice", "./a.slice"], ["a.slice", "b.slice", "a.slice"], ["b.slice", "-R", "a.slice", "-R", "./a.slice"],
+             ["a.slice", "a.slice", "a.slice"]]
+    allows = [([], False), (["-A", "DuplicateFile"], True), (["-A", "All"], True), (["--allow", "duplicatefile"], True), (["-A", "ALL"], True),
+              (["-A", "Deprecated"], False), (["-A", "BrokenDocLink", "-A", "DuplicateFile"], True), (["-A", "Deprecated", "-A", "IncorrectDocComment"], False)]
+    for files in lists:
+        for allow, silenced in allows:
+            argv = ["slicec"] + files + allow
+            r = ctx.worker.request({"op": "compile_opts", "argv": argv, "cwd": tmp, "want": ["diags"]})
+            ctx.note_case(("dupfile", tuple(argv)))
+            ctx.stats["duplicate_file_cases"] += 1
+            replay = {"kind": "library", "call": "compile_from_options + into_diagnostics", "argv": argv, "files": {"a.slice": "...", "b.slice": "..."},
+                      "expected": "silenced" if silenced else "warning"}
+            if "died" in r or r.get("panic") or "usage_error" in r:
+                ctx.violate("crash:dupfile", "failed: %r" % (r.get("panic") or r.get("died") or r.get("usage_error")), replay)
+                continue
+            dups = [d for d in r["diags"] if d["code"] == "DuplicateFile"]
+            paths = [x for x in files if x != "-R"]
+            want_n = len(paths) - len(set(os.path.normpath(x) for x in paths))
+            replay["observed"] = [(d["code"], d["level"]) for d in r["diags"]]
+            if len(dups) != want_n:
+                ctx.violate("duplicate-file-count", "%d DuplicateFile lints for %r" % (len(dups), files), replay)
+                continue
+            levels = set(d["level"] for d in dups)
+            if silenced and levels != {"allowed"}:
+                ctx.violate("not-silenced:duplicate-file/cmdline", "DuplicateFile with %r: levels %s" % (allow, sorted(levels)), replay)
+            elif not silenced and levels != {"warning"}:
+                ctx.violate("silenced-out-of-scope:duplicate-file/cmdline", "DuplicateFile with %r: levels %s" % (allow, sorted(levels)), replay)
+            # the other lint of the program is untouched by a DuplicateFile suppression
+            dep = [d for d in r["diags"] if d["code"] == "Deprecated"]
+            want_dep = "allowed" if any(a.lower() in ("all", "deprecated") for a in allow) else "warning"
+            if len(dep) != 1 or dep[0]["level"] != want_dep:
+                ctx.violate("suppression-changes-other-diagnostics:duplicate-file", "Deprecated lint is %r with %r" % ([d["level"] for d in dep], allow), replay)
+
+
 def run_shard(ctx, spec):
-    {"templates": run_templates, "errors": run_errors, "request": run_request}[spec[0]](ctx, spec)
+    {"templates": run_templates, "errors": run_errors, "request": run_request, "dupfile": run_dupfile}[spec[0]](ctx, spec)
 
 
 def plan(tier, seed):
-    return [("templates", i, 8) for i in range(8)] + [("errors", i, 8) for i in range(8)] + [("request", i, 8) for i in range(8)]
+    return [("templates", i, 8) for i in range(8)] + [("errors", i, 8) for i in range(8)] + [("request", i, 8) for i in range(8)] + [("dupfile",)]
 
 
 def main(tier, seed):
@@ -315,7 +386,8 @@ def main(tier, seed):
               "two lints). Each case is compared with its unsuppressed twin (level of the seeded lint, all other diagnostics, AST). "
               "Binary families: an error next to every in-scope suppression (errors and exit status unchanged), generator request "
               "with/without. distinct_nontrivial = distinct (template, placement, argument)" % len(T)),
-        required={"template_cases": 800, "expected_silenced": 400, "expected_reported": 300, "error_cases": 100, "request_pairs": 50},
+        required={"template_cases": 2000, "expected_silenced": 1000, "expected_reported": 400, "error_cases": 100, "request_pairs": 50,
+                  "duplicate_file_cases": 10},
         assumptions=["which -A spellings are accepted is taken from the command-line parser itself; an accepted value must be effective",
                      "the element a Deprecated lint concerns is the member / alias / interface / enum holding the reference",
                      "DuplicateFile can only be suppressed from the command line (covered by C14's binary family)"],
